@@ -142,8 +142,13 @@ class Case:
                                                             self.local_tz)
 
 
+RESIDUE_MODES = ["gregorian", "360day", "365day", "366day", "gregorian", "360_day"]
+
+
 @contextlib.contextmanager
-def environment(case):
+def environment(case, residue=None):
+    """`residue`: the calendar mode an EARLIER command in the same process left on the process-wide
+    singleton (main(argv) is also an API; each call has to select what ITS options and environment say)."""
     from metomi.isodatetime import timezone as tzmod
     from metomi.isodatetime.data import CALENDAR
     saved_env = {k: os.environ.get(k) for k in ("ISODATETIMECALENDAR", "ISODATETIMEREF")}
@@ -154,7 +159,7 @@ def environment(case):
         else:
             os.environ[k] = v
     tzmod.get_local_time_zone = lambda: case.local_tz
-    CALENDAR.set_mode("gregorian")
+    CALENDAR.set_mode(residue or "gregorian")
     try:
         yield
     finally:
@@ -171,7 +176,7 @@ def run_cli(case):
     """Run the real command; returns 'OUT:<stdout>' | 'EXIT:<code-or-message>' | 'TRACEBACK:<class>'."""
     from metomi.isodatetime import main as cli
     out, err = io.StringIO(), io.StringIO()
-    with environment(case):
+    with environment(case, residue=RESIDUE_MODES[case.spell_seed % len(RESIDUE_MODES)]):
         try:
             with contextlib.redirect_stdout(out), contextlib.redirect_stderr(err):
                 engine.guarded(cli.main, case.argv())
